@@ -92,6 +92,20 @@ Corollary C08_catalogue :
 Proof. exact (proj2 (proj2 (proj2 (proj2 (proj2 C08_spec))))). Qed.
 
 (* what a match against an anonymous literal / a generated union class means (generic, instantiated at the current files) *)
+(* a union of "variant" literals is merged by the plugin into one record: it has exactly one data member per property name of every
+   alternative (names only: what type / optionality a merged member should have is not pinned) *)
+Corollary C08_variant_meaning : forall ks a, cs_match files (CsVarOf ks) a = true ->
+  exists v c, a = CsN v /\ In (FClass c) files /\ c_name c = v /\ c_contract c = true
+    /\ NoDup (map m_wire (c_members c))
+    /\ (forall k, In k (map m_wire (c_members c)) -> In k ks)
+    /\ (forall k, In k ks -> exists m, In m (c_members c) /\ m_wire m = k /\ lit_assignable c m = true).
+Proof. exact (cs_match_var files). Qed.
+Example C08_variant_example :
+  cs_of mm (TOr [TLit [("notebook", TBase BString, false); ("cells", TBase BString, true)];
+                 TLit [("notebook", TBase BString, true); ("cells", TBase BString, false); ("extra", TBase BBoolean, true)]])
+  = CsVarOf ["notebook"; "cells"; "extra"].
+Proof. vm_compute. reflexivity. Qed.
+
 Corollary C08_literal_meaning : forall ms a, cs_match files (CsLitOf ms) a = true ->
   exists v c, a = CsN v /\ In (FClass c) files /\ c_name c = v /\ c_contract c = true
     /\ NoDup (map m_wire (c_members c))
@@ -147,6 +161,7 @@ Print Assumptions C08_structures.
 Print Assumptions C08_skipped_only_private_bases.
 Print Assumptions C08_types_exact.
 Print Assumptions C08_literal_meaning.
+Print Assumptions C08_variant_meaning.
 Print Assumptions C08_enumerations.
 Print Assumptions C08_requests.
 Print Assumptions C08_notifications.
